@@ -146,6 +146,43 @@ fn convert(entry: u32, input: &str, st: &Settings, ow: f32, oh: f32) -> String {
             node.render(&mut buffer).expect("must render");
             buffer
         }
+        8 => {
+            // the page assembled through the public StringBuffer API instead of being parsed from text:
+            // every character is put at its column and row with add_char, in an order shuffled by the
+            // seed `ow`; a quarter of the cells is first written with another character and then overwritten.
+            // Used for legend-free documents of single-width characters only.
+            let mut cells: Vec<(i32, i32, char)> = vec![];
+            for (y, line) in input.lines().enumerate() {
+                for (x, ch) in line.chars().enumerate() {
+                    if ch != ' ' {
+                        cells.push((x as i32, y as i32, ch));
+                    }
+                }
+            }
+            let mut state = (ow as u64).wrapping_mul(0x9E37_79B9_7F4A_7C15) | 1;
+            let mut next = move || {
+                state ^= state << 13;
+                state ^= state >> 7;
+                state ^= state << 17;
+                state
+            };
+            for i in (1..cells.len()).rev() {
+                let j = (next() % (i as u64 + 1)) as usize;
+                cells.swap(i, j);
+            }
+            let mut sb = svgbob::buffer::StringBuffer::new();
+            for (x, y, ch) in cells.iter() {
+                if next() % 4 == 0 {
+                    sb.add_char(*x, *y, '#');
+                }
+                sb.add_char(*x, *y, *ch);
+            }
+            let cb = svgbob::CellBuffer::from(sb);
+            let (node, _, _): (svgbob::Node<()>, f32, f32) = cb.get_node_with_size(st);
+            let mut buffer = String::new();
+            node.render(&mut buffer).expect("must render");
+            buffer
+        }
         _ => {
             // one CellBuffer rendered twice: first with other settings (scale `ow`, switches inverted), then
             // with the requested ones; what the second render returns must not depend on the first
